@@ -211,7 +211,7 @@ TEXT = {
                       "and is an observed (K+1)-mer; C03_observed_adjacency_recorded - conversely every observed (K+1)-mer at a node end whose "
                       "target was retained is recorded (terminal k-mers that are their own reverse complement excluded). max_path_beam is not modelled.",
         "design_ref": "DESIGN.md section 6, C03",
-        "level_note": COMMON_NOTE + "Partial: GInv / edge completeness after re-compression WITH censoring by execution (without censoring: C09_result_wellformed).",
+        "level_note": COMMON_NOTE + "C03_adjacency_exact: the adjacency set of the one-pass pipeline's graph (node-internal steps + resolved edges, unordered canonical pairs) is exactly the set of (K+1)-mers some read spells between retained k-mers, self-complementary k-mers included (sharded pipeline: C04_adjacencies_agree). Graphs re-compressed WITH a censor list are outside C03's quantifier (read sets, types, strandedness, thresholds); for them C09 proves that nothing dangles and the correspondence evaluates the predicates.",
         "technique": "Lean 4 proof (case analysis of link resolution, bit-level exactness of pruning, overlap algebra of walks, invariant of the greedy best-path loop) + differential correspondence with executable predicates",
     },
     "C18": {
